@@ -84,8 +84,10 @@ func (c *CollectionChange) include(includeFunc FilterFunc) (newChange *Collectio
 		return c, true
 	}
 
-	oldInclude := includeFunc(c.Id, c.OldValue)
-	newInclude := includeFunc(c.Id, c.NewValue)
+	// an absent value (the old value of an ADD, the new value of a REMOVE) is never included,
+	// whatever the filter says about nil: it is not part of the collection
+	oldInclude := c.OldValue != nil && includeFunc(c.Id, c.OldValue)
+	newInclude := c.NewValue != nil && includeFunc(c.Id, c.NewValue)
 	if oldInclude == newInclude {
 		// the only time we want to skip sending the update is if both the old and new values are excluded
 		return c, newInclude
